@@ -306,7 +306,10 @@ func runC18(rec *kit.Recorder, c c18Case) error {
 		if err != nil {
 			continue
 		}
-		type agg struct{ shards, docs int; content int64 }
+		type agg struct {
+			shards, docs int
+			content      int64
+		}
 		want := map[string]*agg{}
 		failed := false
 		for _, s := range per.Shards {
